@@ -7,6 +7,16 @@ run() {
   P=/verif/$d/patch.diff
   wt=/tmp/sw_$id.$$
   flock /tmp/.verif_wt.lock git -C /repo worktree add -q --detach $wt HEAD || { echo "$id worktree-failed"; return; }
+  # a seed whose target code a later fix: commit removed (on HEAD the patch applies but changes nothing that matters) is
+  # pinned to the last commit on which it is a violation (seeded/<id>/base.txt)
+  if [ -f /verif/$d/base.txt ]; then
+    flock /tmp/.verif_wt.lock git -C /repo worktree remove --force $wt
+    pin=$(cat /verif/$d/base.txt | head -1 | awk '{print $1}')
+    out=$(PIN_BASE=$pin /verif/refacb.sh $P $prop 2>&1)
+    rules=$(echo "$out" | grep -E ": $prop\.[A-Za-z0-9]+ " | sed -E "s/^[^ ]+ ($prop\.[A-Za-z0-9]+) .*/\1/" | sort -u | tr '\n' ' ')
+    if [ -n "$rules" ]; then echo "$id CAUGHT $rules(pinned-base-$pin)"; else echo "$id missed (pinned-base-$pin)"; fi
+    return
+  fi
   if ! git -C $wt apply $P 2>/dev/null; then
     if [ -f /verif/$d/patch.rebased.diff ] && git -C $wt apply /verif/$d/patch.rebased.diff 2>/dev/null; then :; else
       # written against an older commit (later fix: commits touched the same lines): analysed on the newest base it
